@@ -10,7 +10,7 @@ from hypothesis import strategies as st
 
 from .. import gen, model
 from ..core import SKIP, Sub
-from ..util import arr, compare, flags, tarr
+from ..util import carr, arr, compare, flags, tarr
 from ..model import F, G, M, S, U
 
 ID = "C12"
@@ -186,7 +186,7 @@ def check_att(case, rec):
         kw["min_period"] = case["min_period"]
     tt = np.array(t, dtype="int64") if case.get("tc") == "epoch" else tarr(t)
     site = "qartod.attenuated_signal_test"
-    got = flags(rec, site, rec.call(site, _att(), arr(x), tt, **kw), n, check=kind)
+    got = flags(rec, site, rec.call(site, _att(), carr(case, x), tt, **kw), n, check=kind)
     if got is SKIP:
         return
     compare(rec, site, got, allowed, check=kind, mode=labels[1])
@@ -212,7 +212,7 @@ def check_badcheck(case, rec):
 
 
 SUBS = [
-    Sub("attenuated", att_case, check_att, quick=4000, thorough=80000),
+    Sub("attenuated", lambda tier: gen.with_carrier(att_case(tier)), check_att, quick=4000, thorough=80000),
     Sub("attenuated_badcheck", badcheck_case, check_badcheck, quick=200, thorough=2000, quick_shards=1),
 ]
 REQUIRED_CLASSES = ["attenuated:boundary", "attenuated:short_then_enough", "attenuated:win_missing",
